@@ -335,12 +335,26 @@ def judge_pipeline(acc, w, pref_name, pref, cks, base_label, feats, level):
 
 
 # ------------------------------------------------------------------ kernel interface
+# quick tier: features added to the (large) supported kinds of the built-in engines - one per feature group
+QUICK_ADDITIONS = {
+    "HIERARCHICAL", "GENERAL_NUMERIC_PLANNING", "TIMED_EFFECTS", "SELF_OVERLAPPING", "FLUENTS_IN_DURATIONS", "BOUNDED_TYPES",
+    "UNIVERSAL_CONDITIONS", "FORALL_EFFECTS", "NON_LINEAR_CONTINUOUS_EFFECTS", "HIERARCHICAL_TYPING", "REAL_ACTION_PARAMETERS",
+    "OBJECT_FLUENTS", "TEMPORAL_OVERSUBSCRIPTION", "FLUENTS_IN_ACTIONS_COST", "REAL_NUMBERS_IN_OVERSUBSCRIPTION",
+    "SIMULATED_EFFECTS", "TRAJECTORY_CONSTRAINTS", "TASK_NETWORK_CONSTRAINTS", "AGENT_SPECIFIC_PRIVATE_GOAL",
+    "UNDEFINED_INITIAL_NUMERIC", "SCOPED_CONSTRAINTS", "CONTINGENT", "PROCESSES",
+}
+STUB_FEATURES = {
+    "ACTION_BASED", "FLAT_TYPING", "NEGATIVE_CONDITIONS", "EQUALITIES", "DISJUNCTIVE_CONDITIONS", "HIERARCHICAL_TYPING",
+    "INT_FLUENTS", "SIMPLE_NUMERIC_PLANNING", "BOUNDED_TYPES", "INCREASE_EFFECTS", "CONDITIONAL_EFFECTS", "ACTIONS_COST",
+    "PLAN_LENGTH", "FINAL_VALUE", "INT_NUMBERS_IN_ACTIONS_COST", "CONTINUOUS_TIME", "TIMED_GOALS", "MAKESPAN",
+    "INT_TYPE_DURATIONS", "EXISTENTIAL_CONDITIONS", "UNIVERSAL_CONDITIONS",
+}
 SMALL = 20  # base kinds with at most this many features are swept with every request
 
 
 def _tier(tier):
     if tier == "quick":
-        return {"d1_big_bases": "own-mode requests", "d1_small_bases": "all requests except 16 compilation kinds no stub supports",
+        return {"d1_big_bases": "own-mode requests; removals: all, additions: QUICK_ADDITIONS", "d1_small_bases": "all requests except 16 compilation kinds no stub supports; additions: QUICK_ADDITIONS + STUB_FEATURES",
                 "d1_reversed": False, "d2_bases": [], "pipeline_len": 2}
     return {
         "d1_big_bases": "all requests (default list); own-mode requests (reversed list)", "d1_reversed": True,
@@ -450,6 +464,8 @@ def run_shard(shard, tier, seed):
             for i, (rem, add) in enumerate(deviations(w, base, d)):
                 if i % shard["nparts"] != shard["part"]:
                     continue
+                if add and not t["d1_reversed"] and add[0] not in QUICK_ADDITIONS and add[0] not in STUB_FEATURES:
+                    continue  # quick tier: added features = one per feature group + every feature a stub supports
                 feats = (set(base) - set(rem)) | set(add)
                 for pn, pref in prefs:
                     w.f.preference_list = list(pref)
@@ -457,6 +473,7 @@ def run_shard(shard, tier, seed):
                         judge(acc, w, pn, pref, req, lab, rem, add, feats, d)
     finally:
         w.f.preference_list = list(default)
+    finalize(acc)  # per-shard minimisation too: a capped run skips the merged finalize
     return acc
 
 
